@@ -13,12 +13,15 @@ import IbicusModel.Props.C03
 #print axioms Props.C03.qdm_relative_fixed_point
 #print axioms Props.C03.qdm_relative_fixed_point_censored
 #print axioms Props.C03.qdm_censored_id_of_ge
+#print axioms Props.C03.qdm_steps_fixed_point
 #print axioms Props.C03.qdm_window_fixed_point
 #print axioms Props.C03.qm_param_fixed_point
 #print axioms Props.C03.qm_param_clipped_value
 #print axioms Props.C03.qm_param_clipped_value_low
 #print axioms Props.C03.cdft_fixed_point
 #print axioms Props.C03.cdft_fixed_point_fails_step_inverted
+#print axioms Props.C03.qm_param_fixed_point_general
+#print axioms Props.C03.cdft_ssr_fixed_point
 -- lifts to the window loops
 #print axioms Props.C03.ls_add_fixed_point_rw
 #print axioms Props.C03.ls_mult_fixed_point_rw
@@ -29,6 +32,8 @@ import IbicusModel.Props.C03
 #print axioms Props.C03.cdft_fixed_point_rw
 #print axioms Props.C03.cdft_fixed_point_years
 #print axioms Props.C03.cdft_fixed_point_rw_years
+#print axioms Props.C03.cdft_ssr_fixed_point_years
+#print axioms Props.C03.cdft_ssr_fixed_point_rw
 #print axioms Props.C03.qdm_fixed_point_rw_years
 #print axioms Props.C03.dc_identity_rw
 -- the interpolation / quantile inverse lemmas (Lemmas/StatsInverse.lean)
@@ -40,6 +45,8 @@ import IbicusModel.Props.C03
 -- conditional lifts
 #print axioms Lemmas.C03.applyLocationRW_fixed_on
 #print axioms Lemmas.C03.applyYears_fixed_on
+#print axioms Lemmas.C03.applyYearsC_fixed_on
+#print axioms Lemmas.C03.ssrAfter_of_pos
 -- the executable family satisfies the laws the parametric theorems assume (non-vacuity)
 #print axioms Lemmas.Family.ratSigmoid_laws
 -- tier A: regenerated kernels = model
